@@ -75,6 +75,7 @@ type Output struct {
 	SolverQueries int              `json:"solver_queries"`
 	SolverS       float64          `json:"solver_s"`
 	SolverErrors  int              `json:"solver_errors"`
+	Fallbacks     int64            `json:"solver_fallback_runs"`
 	LoadS         float64          `json:"load_s"`
 	InitS         float64          `json:"init_s"`
 	WallS         float64          `json:"wall_s"`
@@ -285,6 +286,16 @@ func main() {
 					if progress && res != nil {
 						fmt.Fprintf(os.Stderr, "[w%d] %s depth=%d status=%s steps=%d obl=%d new=%d %.2fs %s\n", w, j.hr.Name, len(j.item.prefix),
 							statusNames[res.status], res.steps, res.obligations, len(res.newWork), time.Since(tp).Seconds(), res.msg)
+						if res.status != stOK && res.status != stInfeasible {
+							var alts []int
+							for i, d := range j.item.prefix {
+								if i >= 24 {
+									break
+								}
+								alts = append(alts, d.Alt)
+							}
+							fmt.Fprintf(os.Stderr, "    prefix alts: %v\n", alts)
+						}
 					}
 				}()
 
@@ -341,7 +352,27 @@ func main() {
 			}
 		}(w)
 	}
-	wg.Wait()
+	// watchdog: if workers are still busy well after the global limit (a solver
+	// or path that ignores its deadline), stop waiting and report what we have
+	doneCh := make(chan struct{})
+	go func() { wg.Wait(); close(doneCh) }()
+	if cfg.TimeLimitS > 0 {
+		select {
+		case <-doneCh:
+		case <-time.After(time.Until(t0.Add(time.Duration(cfg.TimeLimitS+150) * time.Second))):
+			mu.Lock()
+			for _, hr := range results {
+				if hr.done != hr.queued {
+					hr.Problems["budget: watchdog stopped the run; exploration incomplete"]++
+				}
+			}
+			stack = nil
+			fatalErr = nil
+			// leave mu locked: workers must not touch the results any more
+		}
+	} else {
+		<-doneCh
+	}
 	if fatalErr != nil {
 		out.Error = fmt.Sprint(fatalErr)
 	}
@@ -367,6 +398,7 @@ func main() {
 			hr.WallS = hr.end.Sub(hr.start).Seconds()
 		}
 	}
+	out.Fallbacks = prog.fallbacks
 	for f := range prog.funcsSeen {
 		out.Functions = append(out.Functions, f)
 	}
